@@ -413,3 +413,13 @@ Definition spec_word (l : loc) (ops : list op) (m0 : mem) : N :=
   | LPresent k => if existsb (incr_of_key k) ops then 1 else get m0 l
   | _ => wrap (get m0 l + sigma l ops)
   end.
+
+(* ---- run-length encoded scripts *)
+Definition expand (segs : list (op * N)) : list op :=
+  flat_map (fun on => N.iter (snd on) (cons (fst on)) []) segs.
+Definition sigma_segs (l : loc) (segs : list (op * N)) : N :=
+  fold_right (fun on a => delta l (fst on) * snd on + a) 0 segs.
+Definition additive_segs (l : loc) (segs : list (op * N)) : bool :=
+  forallb (fun on => negb (clobbers l (fst on))) segs.
+Definition key_incremented (k : N) (segs : list (op * N)) : bool :=
+  existsb (fun on => incr_of_key k (fst on) && negb (snd on =? 0)) segs.
